@@ -595,6 +595,9 @@ func (m *Machine) build(op Op, pid, secret string) *harness.Req {
 		return &harness.Req{Browser: b, Method: "POST", Path: P("/otp/clear"), Form: map[string]string{}}
 	case "register":
 		f := map[string]string{m.pidField(): pid, "password": secret, "confirm_password": secret}
+		if m.C.Cfg.Username {
+			f["email"] = pid + "@mail.io"
+		}
 		if op.S2 != "" {
 			var extra map[string]string
 			if json.Unmarshal([]byte(op.S2), &extra) == nil {
